@@ -466,6 +466,11 @@ def number_radix(O):
         if len(fr_) != 1:
             R.fail(O, p, "a number is accepted without exactly one conversion", extra=[rt == bv64(0)])
             continue
+        if not re.search(r"<impl i64>::from_str_radix$", fr_[0].norm):
+            # the same converter for every radix: i64's (a u64 / wider one accepts spellings that decimal rejects)
+            R.fail(O, p, "a literal is converted by %s, not by i64::from_str_radix" % fr_[0].norm.split("core::num::")[-1],
+                   extra=[rt == bv64(0)])
+            continue
         try:
             sid = str_id(eng, _str_node(eng, fr_[0].args[0]))
         except Exception as e:
@@ -583,3 +588,20 @@ def _reg_blank_line(end_token):
 _reg_blank_line(None)
 _reg_blank_line("Loop")
 _reg_blank_line("While")
+
+
+def _reg_block_lines(name, head, tail):
+    @obligation("C20/lines-below-block-header[%s]" % name, profiles=("dev",),
+                desc="block parser over `%s`, one arbitrary token, `%s`: every accepted row records starting line + number of "
+                     "line-break tokens consumed before it - blank or comment-only lines directly below a loop / while header "
+                     "shift the lines of what follows like anywhere else" % (" ".join(head), " ".join(tail)))
+    def _ob(O, head=head, tail=tail):
+        from . import C19
+        for n in (0, 1):
+            C19.block_lines(O, n, head, tail, R=rep("inserted"))
+    return _ob
+
+
+from . import C19 as _C19
+_reg_block_lines("loop", _C19.LOOP_HEAD, ("DecInt", "Eol", "End", "Loop"))
+_reg_block_lines("while", _C19.WHILE_HEAD, ("DecInt", "Eol", "End", "While"))
